@@ -47,13 +47,32 @@ type c18Scn struct {
 	Reuse bool        `json:"reuse_option_values,omitempty"`
 	Sess  [][]gHandle `json:"sessions"` // the handles each session opens when it starts
 	Steps []c18Step   `json:"steps"`
+	// MaskTimes: the sessions ask for the attributes of objects they have made or written themselves (their times
+	// are the time of the run): of ATTRS replies and of the entries of NAME replies everything but the access and
+	// modification time (and the date column of the long name) is compared.
+	MaskTimes bool `json:"mask_times,omitempty"`
+	// Only "off": the scenario is run without the allocator only (checkC18 asks for that after the process running
+	// the pair of runs died, to tell whether the death needs the allocator).
+	Only string `json:"only,omitempty"`
+}
+
+// Server kinds of a scenario: "os" (os-backed Server on a scratch tree), "rs" (RequestServer over the instrumented
+// handlers of gated_prog.go: reads of generated contents, writes recorded, calls can be held), "mem" (RequestServer
+// over the package's own sftp.InMemHandler(): what is written is STORED by the handler and read back from it).
+func (scn c18Scn) pathKind() string {
+	if scn.Server == "os" {
+		return "os"
+	}
+	return "rs"
 }
 
 // c18Step is one action on session S:
 //
 //	open    start the server, INIT, open the handles one by one
 //	send    Ops in one piece; the calls of Ops[Hold…] are held; returns when every reply that is due has been read,
-//	        every held call sits on its gate and every other call has returned
+//	        every held call sits on its gate and every other call has returned; an OPEN / OPENDIR among them
+//	        (open, openrw, openw, opennew, openrwc, opendir) with a name in H makes the handle of its HANDLE reply
+//	        known under that name to the steps that follow
 //	probe   Ops[0] changed by Mut, alone; returns when it was answered or the server ended the session
 //	release the held calls of the session return (oldest first; Lifo: newest first); replies read as for send
 //	end     close what is open, (Mut "short": a last frame without its last N bytes,) end of input, Serve returns
@@ -64,6 +83,7 @@ type c18Step struct {
 	Hold []int   `json:"hold,omitempty"`
 	Mut  *c18Mut `json:"mut,omitempty"`
 	Lifo bool    `json:"lifo,omitempty"`
+	Tag  string  `json:"tag,omitempty"` // (stored-data) which part of the session the step belongs to: early | between | late
 }
 
 // c18Mut changes a well-formed frame (its outer length always says how many bytes follow, so the server takes in
@@ -76,6 +96,9 @@ type c18Step struct {
 //	pad    N more bytes follow the request
 //	raw    the bytes of Hex are sent as they are (an empty frame, unknown types, a length word above the maximum)
 //	short  (end only) the frame is sent without its last N bytes — its outer length promises them — then the input ends
+//	fit    the request is WELL-FORMED and its frame exactly N bytes long (the length word says N): a WRITE carries as
+//	       many data bytes as that takes, a REALPATH / READLINK a path as long as that takes, any other request is
+//	       followed by the missing bytes; frames above the servers' limit included (c18_store.go)
 type c18Mut struct {
 	Kind string `json:"kind"`
 	Word int    `json:"word,omitempty"`
@@ -256,6 +279,7 @@ func (m c18Mut) apply(kind string, fr []byte) (out []byte, ok bool) {
 type c18Pend struct {
 	key  string
 	held bool
+	bind *gOp // an OPEN / OPENDIR whose handle is to be known under the name bind.H
 }
 
 // c18Sx is one session of one run of a scenario.
@@ -342,7 +366,7 @@ func (scn c18Scn) union() gProg {
 // of freshly built option values.
 func c18ScnExec(scn c18Scn, alloc bool, only int, root string) *c18ScnRun {
 	run := &c18ScnRun{}
-	cs := &gCase{Prog: gProg{Server: scn.Server, WorkDir: scn.WorkDir}}
+	cs := &gCase{Prog: gProg{Server: scn.pathKind(), WorkDir: scn.WorkDir}}
 	abs := cs.abs(root)
 	fault := func(key, f string, a ...any) *c18ScnRun {
 		if run.FaultKey == "" {
@@ -357,7 +381,7 @@ func c18ScnExec(scn c18Scn, alloc bool, only int, root string) *c18ScnRun {
 	}
 	for i := range scn.Sess {
 		run.Sess = append(run.Sess, &c18Sx{idx: i, handles: map[string]string{}, hinfo: map[string]gHandle{}, closed: map[string]bool{}, sid: 0xF0000000,
-			k: lib.NewCase(gClass(gChildProp, scn.Server))})
+			k: lib.NewCase(gClass(gChildProp, scn.pathKind()))})
 	}
 	var sharedOS []sftp.ServerOption
 	var sharedRS []sftp.RequestServerOption
@@ -392,6 +416,12 @@ func c18ScnExec(scn c18Scn, alloc bool, only int, root string) *c18ScnRun {
 				return false
 			}
 			x.event("reply %s", c18ReplyText(f))
+			if b := x.pend[0].bind; b != nil && f.Typ == wire.Handle && len(f.Body) >= 8 {
+				d := wire.D{B: f.Body[4:]}
+				x.handles[b.H], x.hinfo[b.H] = d.Str(), gHandle{Name: b.H, Kind: c18OpenKinds[b.K], Path: b.P}
+				delete(x.closed, b.H)
+				x.order = append(x.order, b.H)
+			}
 			x.pend = x.pend[1:]
 		}
 		var held []string
@@ -431,6 +461,9 @@ func c18ScnExec(scn c18Scn, alloc bool, only int, root string) *c18ScnRun {
 				h = "no-such-handle-" + o.H
 			}
 		}
+		if fl, ok := c18OpenFlags[o.K]; ok {
+			return wire.Req(wire.Open, o.ID, wire.B{}.Str(cs.sent(root, o)(o.P)).U32(fl).Raw(o.openBlock()))
+		}
 		return o.frame(cs.sent(root, o), h)
 	}
 	keyOf := func(x *c18Sx, o gOp) string {
@@ -439,6 +472,8 @@ func c18ScnExec(scn c18Scn, alloc bool, only int, root string) *c18ScnRun {
 			return ""
 		}
 		switch {
+		case scn.Server == "mem": // no instrumented calls
+			return ""
 		case o.K == "read" && (hd.Kind == "get" || hd.Kind == "rw"):
 		case o.K == "write" && !scn.ReadOnly && (hd.Kind == "put" || hd.Kind == "rw"):
 		default:
@@ -476,6 +511,8 @@ func c18ScnExec(scn c18Scn, alloc bool, only int, root string) *c18ScnRun {
 					return fault("harness/server-start", "%v", err)
 				}
 				x.srv = srv
+			} else if scn.Server == "mem" {
+				x.srv = peers.StartRS(sftp.InMemHandler(), ro...)
 			} else {
 				rsh := &gRS{hub: x.hub, obj: map[string]*gRSFile{}}
 				x.srv = peers.StartRS(rsh.handlers(gIfaces{}), ro...)
@@ -495,6 +532,8 @@ func c18ScnExec(scn c18Scn, alloc bool, only int, root string) *c18ScnRun {
 					f = wire.Req(wire.Open, x.sid, wire.B{}.Str(openName(h.Path)).U32(wire.FWrite|wire.FCreat|wire.FTrunc).U32(0))
 				case "rw":
 					f = wire.Req(wire.Open, x.sid, wire.B{}.Str(openName(h.Path)).U32(wire.FRead|wire.FWrite).U32(0))
+				case "new": // made (or emptied) by the OPEN itself, for reading and writing
+					f = wire.Req(wire.Open, x.sid, wire.B{}.Str(openName(h.Path)).U32(wire.FRead|wire.FWrite|wire.FCreat|wire.FTrunc).U32(0))
 				case "dir":
 					f = wire.Req(wire.Opendir, x.sid, wire.B{}.Str(openName(h.Path)))
 				default:
@@ -537,7 +576,12 @@ func c18ScnExec(scn c18Scn, alloc bool, only int, root string) *c18ScnRun {
 			}
 			x.hub.mu.Unlock()
 			for i, o := range st.Ops {
-				x.pend = append(x.pend, c18Pend{key: keys[i], held: isHeld[i]})
+				pe := c18Pend{key: keys[i], held: isHeld[i]}
+				if _, isOpen := c18OpenKinds[o.K]; isOpen && o.H != "" {
+					ob := o
+					pe.bind = &ob
+				}
+				x.pend = append(x.pend, pe)
 				if o.K == "close" {
 					x.closed[o.H] = true
 				}
@@ -574,7 +618,13 @@ func c18ScnExec(scn c18Scn, alloc bool, only int, root string) *c18ScnRun {
 			if len(st.Ops) != 1 || st.Mut == nil || len(x.pend) != 0 {
 				return fault("harness/scenario", "step %d: a probe is one changed request, sent when nothing is outstanding", si)
 			}
-			fr, ok := st.Mut.apply(st.Ops[0].K, frameOf(x, st.Ops[0]))
+			var fr []byte
+			var ok bool
+			if st.Mut.Kind == "fit" {
+				fr, ok = c18FitFrame(st.Ops[0], st.Mut.N, func(o gOp) []byte { return frameOf(x, o) })
+			} else {
+				fr, ok = st.Mut.apply(st.Ops[0].K, frameOf(x, st.Ops[0]))
+			}
 			if !ok {
 				x.event("probe %s %s: no such change for this frame", st.Ops[0].K, st.Mut.text())
 				x.Probes = append(x.Probes, "not-applicable")
@@ -588,16 +638,35 @@ func c18ScnExec(scn c18Scn, alloc bool, only int, root string) *c18ScnRun {
 				x.Probes = append(x.Probes, "not-run")
 				continue
 			}
-			if err := hSend(x.srv, x.k, fr); err != nil {
-				if err == peers.ErrTimeout {
-					return fault("input/send-blocked/"+srvName, "session %d: the server did not take in the frame of step %d (%d bytes, outer length %d)", x.idx, si, len(fr), len(fr)-4)
+			var f wire.Pkt
+			var err error
+			if st.Mut.Kind == "fit" {
+				// The frame may be longer than what the server takes: a server that refuses it stops reading in the middle
+				// of it and returns from Serve with the connection left open, so the frame is written while the reply (or
+				// the end of the server's output) is awaited, and the input is closed where the server has given up.
+				sent := make(chan error, 1)
+				go func() { sent <- x.srv.Send(fr) }()
+				f, err = hRecv(x.srv, x.k, gDeadlineNow())
+				if err == nil {
+					if _, ok := lib.WaitCase(x.k, gDeadlineNow(), sent); !ok {
+						return fault("input/send-blocked/"+srvName, "session %d: the frame of step %d (%d bytes, outer length %d) was answered, but not taken in completely", x.idx, si, len(fr), len(fr)-4)
+					}
+				} else {
+					x.srv.CloseInput()
+					<-sent
 				}
-				x.dead, x.EndedBy = true, "server"
-				x.event("probe %s %s: the server stopped reading (%v)", st.Ops[0].K, st.Mut.text(), err)
-				x.Probes = append(x.Probes, "ended")
-				continue
+			} else {
+				if err := hSend(x.srv, x.k, fr); err != nil {
+					if err == peers.ErrTimeout {
+						return fault("input/send-blocked/"+srvName, "session %d: the server did not take in the frame of step %d (%d bytes, outer length %d)", x.idx, si, len(fr), len(fr)-4)
+					}
+					x.dead, x.EndedBy = true, "server"
+					x.event("probe %s %s: the server stopped reading (%v)", st.Ops[0].K, st.Mut.text(), err)
+					x.Probes = append(x.Probes, "ended")
+					continue
+				}
+				f, err = hRecv(x.srv, x.k, gDeadlineNow())
 			}
-			f, err := hRecv(x.srv, x.k, gDeadlineNow())
 			switch {
 			case err == nil:
 				x.event("probe %s %s: reply %s", st.Ops[0].K, st.Mut.text(), c18ReplyText(f))
@@ -676,7 +745,7 @@ func c18ScnExec(scn c18Scn, alloc bool, only int, root string) *c18ScnRun {
 				x.Effects = append(x.Effects, "buffer-problem: "+pr)
 			}
 			if scn.Server == "rs" {
-				for _, c := range calls[x.setup:] {
+				for _, c := range calls[min(x.setup, len(calls)):] {
 					x.Effects = append(x.Effects, fmt.Sprintf("%s %s n=%d err=%q %s", c.Key, c.Op, c.N, c.Err, gDigest(c.Data)))
 				}
 				sort.Strings(x.Effects)
@@ -782,6 +851,27 @@ func c18ScnSummarise(st c18Stream, scratch string) gSummary {
 			}
 		}
 	}
+	for _, h := range c18StoreHist(st.Fam, scn) {
+		hist(h)
+	}
+	mask := func(raw []byte) []byte {
+		raw = c18MaskVolatile(srv, raw)
+		if scn.MaskTimes {
+			raw = c18MaskTimes(raw)
+		}
+		return raw
+	}
+	if scn.Only == "off" { // (after the process running the pair died) does the scenario run through without the allocator?
+		off := c18ScnExec(scn, false, -1, root)
+		if off.FaultKey != "" {
+			kind := "oracle"
+			if strings.HasPrefix(off.FaultKey, "harness/") {
+				kind = "tie"
+			}
+			fail(lib.Failure{Kind: kind, Key: off.FaultKey, What: off.Fault})
+		}
+		return s
+	}
 
 	var off, on *c18ScnRun
 	attempts := 0
@@ -799,7 +889,7 @@ func c18ScnSummarise(st c18Stream, scratch string) gSummary {
 		}
 		timeOnly := true
 		for i := range off.Sess {
-			if d, timeLike := c18FirstDiff(c18MaskVolatile(srv, off.Sess[i].Raw), c18MaskVolatile(srv, on.Sess[i].Raw)); d != "" {
+			if d, timeLike := c18FirstDiff(mask(off.Sess[i].Raw), mask(on.Sess[i].Raw)); d != "" {
 				diffs = append(diffs, sdiff{i, d})
 				timeOnly = timeOnly && timeLike
 			}
@@ -849,6 +939,9 @@ func c18ScnSummarise(st c18Stream, scratch string) gSummary {
 		}
 		hist("session-ended-by=" + x.EndedBy)
 	}
+	if len(diffs) > 0 {
+		hist("replies-differ-with-allocator/family=" + st.Fam)
+	}
 	for _, d := range diffs {
 		fail(lib.Failure{Kind: "oracle", Key: "alloc/response-bytes-differ/" + srv, What: fmt.Sprintf("the reply stream of session %d with the allocator is not byte-identical to the one without", d.s),
 			Expected: map[string]any{"identical streams; without the allocator": events(off)}, Actual: map[string]any{"first difference": d.text, "with the allocator": events(on)}})
@@ -890,7 +983,7 @@ func c18ScnSummarise(st c18Stream, scratch string) gSummary {
 				continue
 			}
 			a, b := solo.Sess[i], off.Sess[i]
-			d, _ := c18FirstDiff(c18MaskVolatile(srv, a.Raw), c18MaskVolatile(srv, b.Raw))
+			d, _ := c18FirstDiff(mask(a.Raw), mask(b.Raw))
 			d = strings.NewReplacer("without allocator", "alone", "with allocator", "together with the other servers").Replace(d)
 			if d == "" && a.EndedBy == b.EndedBy && a.ServeErr == b.ServeErr {
 				continue
@@ -903,7 +996,7 @@ func c18ScnSummarise(st c18Stream, scratch string) gSummary {
 				Expected: map[string]any{"alone": map[string]any{"events": a.Events, "ended_by": a.EndedBy, "serve_returned": a.ServeErr}}, Actual: map[string]any{"first difference": d, "together": events(off)}})
 		}
 	}
-	if st.Fam == "reused-option-values" && len(scn.Steps) <= 14 {
+	if (st.Fam == "reused-option-values" || st.Fam == "stored-data" || st.Fam == "frame-limits") && len(scn.Steps) <= 14 {
 		s.Sample = map[string]any{"family": st.Fam, "scenario": scn, "with_allocator": events(on)}
 	}
 	return s
